@@ -25,7 +25,9 @@ bool _crypt_get_random_bytes(void *buf, size_t n) {
 static std::string next_outcome(const char *src) {
   auto &q = g_rngdev.script[src];
   if (q.empty()) return "ok";
-  std::string o = q.front(); q.erase(q.begin());
+  std::string o = q.front();
+  if (!o.empty() && o.back() == '*') return o.substr(0, o.size() - 1);   // pinned for the rest of the op
+  q.erase(q.begin());
   return o;
 }
 static void partial_fill(void *buf, size_t n, const char *src) {
@@ -52,6 +54,12 @@ static long serve(const char *src, void *buf, size_t n, bool all_or_nothing) {
   if (o == "eintr") { errno = EINTR; return -1; }
   if (o == "eio") { errno = EIO; return -1; }
   if (o == "eagain") { errno = EAGAIN; return -1; }
+  if (o == "eperm") { errno = EPERM; return -1; }
+  if (o == "einval") { errno = EINVAL; return -1; }
+  if (o == "efault") { errno = EFAULT; return -1; }
+  if (o == "ebadf") { errno = EBADF; return -1; }
+  if (o == "short0") o = "short:0";
+  if (o == "shortmax") o = "short:" + std::to_string(n ? n - 1 : 0);
   if (o.compare(0, 6, "short:") == 0) {
     if (all_or_nothing) { errno = EIO; return -1; }     // getentropy cannot come up short
     size_t k = (size_t)atoi(o.c_str() + 6); if (k >= n) k = n ? n - 1 : 0;
@@ -85,7 +93,7 @@ int sim_open(const char *path, int flags, ...) {
     g_rngdev.failed_sources.insert("urandom");
     MemLayer::get().stats["inj_open_" + o]++;
     ev("entropy-fault src=open outcome=" + o);
-    errno = o == "emfile" ? EMFILE : o == "eacces" ? EACCES : ENOENT; return -1;
+    errno = o == "emfile" ? EMFILE : o == "eacces" ? EACCES : o == "eintr" ? EINTR : o == "enfile" ? ENFILE : o == "enomem" ? ENOMEM : ENOENT; return -1;
   }
   int fd = 1000 + g_rngdev.next_fd++;
   g_rngdev.open_fds.insert(fd);
